@@ -813,6 +813,166 @@ func ruleInitShape(c *Ctx, r *Reporter) {
 			r.badP([]string{"C19"}, key, c.posStr(instrPos(badPos)), "the mark-done closure "+bad+": that state survives Abort, so a mark made in an aborted transaction is remembered and a later mark in a committed transaction does nothing - the table never becomes initialized")
 		}
 	}
+	// the mark-done closure finds its own registration by an identity created per RegisterInitializer
+	// call, not by anything the caller supplied: a name can be registered again (after the first
+	// registration is done, or after the registering transaction was aborted) and the old function must
+	// not complete that other registration
+	{
+		key := "statedb.(genTable).RegisterInitializer|mark-done identifies its own registration"
+		// fresh(v): v is a cell of reg whose content is created by this call (allocation, channel, call
+		// result), as opposed to a parameter or something computed from parameters only
+		var fromParams func(v ssa.Value, depth int) bool
+		fromParams = func(v ssa.Value, depth int) bool {
+			if depth > 8 {
+				return false
+			}
+			switch x := v.(type) {
+			case *ssa.Parameter, *ssa.Const:
+				return true
+			case *ssa.Convert:
+				return fromParams(x.X, depth+1)
+			case *ssa.ChangeType:
+				return fromParams(x.X, depth+1)
+			case *ssa.MakeInterface:
+				return fromParams(x.X, depth+1)
+			case *ssa.BinOp:
+				return fromParams(x.X, depth+1) && fromParams(x.Y, depth+1)
+			case *ssa.FieldAddr:
+				return fromParams(x.X, depth+1)
+			case *ssa.Field:
+				return fromParams(x.X, depth+1)
+			case *ssa.UnOp:
+				if x.Op == token.MUL {
+					if al, ok := x.X.(*ssa.Alloc); ok {
+						sts := storesTo(reg, al)
+						if len(sts) == 0 {
+							return false
+						}
+						for _, st := range sts {
+							if !fromParams(st.Val, depth+1) {
+								return false
+							}
+						}
+						return true
+					}
+				}
+				return fromParams(x.X, depth+1)
+			case *ssa.Phi:
+				for _, e := range x.Edges {
+					if !fromParams(e, depth+1) {
+						return false
+					}
+				}
+				return true
+			}
+			return false
+		}
+		freshCell := func(b ssa.Value) bool {
+			al, ok := b.(*ssa.Alloc)
+			if !ok {
+				return false
+			}
+			sts := storesTo(reg, al)
+			if len(sts) == 0 {
+				return false
+			}
+			for _, st := range sts {
+				if fromParams(st.Val, 0) {
+					return false
+				}
+			}
+			return true
+		}
+		// bindings of every closure under reg
+		fresh := map[*ssa.FreeVar]bool{}
+		var bind func(parent *ssa.Function)
+		bind = func(parent *ssa.Function) {
+			for _, ia := range allInstrs(parent) {
+				mc, ok := ia.In.(*ssa.MakeClosure)
+				if !ok {
+					continue
+				}
+				cf, _ := mc.Fn.(*ssa.Function)
+				if cf == nil {
+					continue
+				}
+				for i, b := range mc.Bindings {
+					if i >= len(cf.FreeVars) {
+						break
+					}
+					switch bb := b.(type) {
+					case *ssa.FreeVar:
+						fresh[cf.FreeVars[i]] = fresh[bb]
+					default:
+						fresh[cf.FreeVars[i]] = parent == reg && freshCell(b)
+					}
+				}
+				bind(cf)
+			}
+		}
+		bind(reg)
+		used := false
+		var usedPos token.Pos
+		nCl := 0
+		for _, fn := range withAnon(reg) {
+			if fn == reg {
+				continue
+			}
+			nCl++
+			for _, fv := range fn.FreeVars {
+				if !fresh[fv] {
+					continue
+				}
+				for _, ref := range *fv.Referrers() {
+					ld, ok := ref.(*ssa.UnOp)
+					if !ok || ld.Op != token.MUL {
+						continue
+					}
+					// the identity itself is compared or searched for (not a field read out of it)
+					var asWhole func(v ssa.Value, depth int) bool
+					asWhole = func(v ssa.Value, depth int) bool {
+						if depth > 4 || v.Referrers() == nil {
+							return false
+						}
+						for _, u := range *v.Referrers() {
+							switch y := u.(type) {
+							case *ssa.BinOp:
+								if y.Op == token.EQL || y.Op == token.NEQ {
+									return true
+								}
+							case ssa.CallInstruction:
+								for _, a := range y.Common().Args {
+									if a == v {
+										return true
+									}
+								}
+							case *ssa.MakeInterface:
+								if asWhole(y, depth+1) {
+									return true
+								}
+							case *ssa.ChangeType:
+								if asWhole(y, depth+1) {
+									return true
+								}
+							}
+						}
+						return false
+					}
+					if asWhole(ld, 0) && !used {
+						used, usedPos = true, ld.Pos()
+					}
+				}
+			}
+		}
+		switch {
+		case nCl == 0:
+			r.undecidedP([]string{"C19"}, key, c.posStr(reg.Pos()), "no mark-done closure found")
+		case used:
+			r.okP([]string{"C19"}, key, c.posStr(usedPos), "the returned closure looks its registration up by an identity allocated in this RegisterInitializer call")
+		default:
+			r.badP([]string{"C19"}, key, c.posStr(reg.Pos()), "the mark-done closure finds its registration only through values supplied by the caller (the name): once that name is registered again - after the first registration was done, or because the registering transaction was aborted - the old function completes the other registration, and the table is reported initialized although that initializer never finished")
+		}
+	}
 	// Commit: init cleared only when pending is empty, and that record's channel is queued
 	if commit := c.Func("statedb", "writeTxnHandle", "Commit"); commit != nil {
 		found := false
